@@ -311,7 +311,7 @@ pub fn pratt_program(levels: &[OpLevel], toks: &[String]) -> Option<VNode> {
             }
             if t == "(" {
                 self.pos += 1;
-                let inner = self.expr(0)?;
+                let inner = self.expr(i32::MIN / 2)?;
                 if self.peek() != Some(")") {
                     return None;
                 }
@@ -363,7 +363,7 @@ pub fn pratt_program(levels: &[OpLevel], toks: &[String]) -> Option<VNode> {
     let mut p = P { levels, toks, pos: 0 };
     let mut children = vec![];
     while p.pos < toks.len() {
-        let e = p.expr(0)?;
+        let e = p.expr(i32::MIN / 2)?;
         children.push(e);
         if p.peek() != Some(";") {
             return None;
